@@ -42,6 +42,12 @@ GaugeWithinTrace(thg, thc) == thg <= thc
 InsideTraceBlocks(E, thg, thc) ==
    LET rg == DegenRG(E, thg) tb == Borders(E, thc, FALSE) IN
    \A j \in 1..Len(rg) : \E k \in 1..Len(tb) : tb[k][1] <= rg[j][1] /\ rg[j][2] <= tb[k][2]
+(* calculators created with degen_Kramers = TRUE trace over Borders(E, thc, TRUE): the threshold borders with the odd ones
+   removed, i.e. unions of threshold groups - a degenerate subspace larger than one pair (a four-fold point) stays whole.
+   StrictPairBlocks = the plausible wrong reading "all bands come in pairs" (must-fail variant). *)
+InsideBlocks(rg, tb) == \A j \in 1..Len(rg) : \E k \in 1..Len(tb) : tb[k][1] <= rg[j][1] /\ rg[j][2] <= tb[k][2]
+InsideKramersTraceBlocks(E, thg, thc) == InsideBlocks(DegenRG(E, thg), Borders(E, thc, TRUE))
+StrictPairBlocks(E) == [j \in 1..((Len(E) + 1) \div 2) |-> <<2 * (j - 1), IF 2 * j <= Len(E) THEN 2 * j ELSE Len(E)>>]
 (* what makes a list of blocks the set of degenerate multiplets *)
 IsMultipletList(E, rg, th) ==
    /\ \A j \in 1..Len(rg) : rg[j][2] - rg[j][1] > 1 /\ 0 <= rg[j][1] /\ rg[j][2] <= Len(E)
